@@ -789,6 +789,8 @@ fn shapes() -> Vec<Shape> {
         method_shape!("fig.scale(u32,optstr)", Fig, m_scale, mt_scale, ma_scale, (k: u32, label: Option<String>)),
         method_shape!("tagged.find(str,str)", Tagged, m_find, mt_find, ma_find, (a: String, b: String)),
         method_shape!("point.noargs", Point, m_norm, mt_norm, ma_norm, ()),
+        method_shape!("point.idx(u32,u32)", Point, m_idx, mt_idx, ma_idx, (a: u32, b: u32)),
+        method_shape!("store.at(i64,u8,u16)", Store, m_at, mt_at, ma_at, (a: i64, b: u8, c: u16)),
     ]
 }
 
